@@ -96,7 +96,7 @@ def judge_load(part, probe, text_steps, what, budget, expect_cycle=False, entrie
     for n in rng.sample(names, min(6, len(names))):
         if re.fullmatch(r"[A-Za-z_][A-Za-z0-9_]*", n):
             probes += [n, "3 %s" % n, "1 %s -> %s" % (n, n), "units for %s" % n]
-    for sym in sorted(dump.get("symbols", {}))[:3]:
+    for sym in [x for x in sorted(dump.get("symbols", {})) if re.fullmatch(r"[A-Za-z]+", x)][:3]:     # `1e99999` + `2` would be a number
         probes += ["%s2" % sym, "molar_mass of %s3%s" % (sym, sym), "%s -> kg" % sym]
     probes += ["5 degC", "300 K -> degC", "2 degF -> degRe", "2 hours", "1000 b0", "1 / b0", "5 b0^-2", "0.001 b0", "1000 m", "1/m",
                "search ans", "search _", "3 kg", "5000 byte", "5 tonne"]
